@@ -250,7 +250,10 @@ fn stream_adler(rep: &mut Report, rng: &mut Rng) {
     let plain = data::gen(rng, cls, n);
     // deflate side
     let mut s = mz_stream::default();
-    if unsafe { mz_deflateInit2(&mut s, rng.below(11) as i32, 8, 15, 9, 0) } != 0 {
+    // zlib framing or raw deflate: the C stream maintains its adler field in both
+    let wb = if rng.chance(1, 3) { -15 } else { 15 };
+    rep.count(if wb < 0 { "mz_deflate_adler_raw_streams" } else { "mz_deflate_adler_zlib_streams" });
+    if unsafe { mz_deflateInit2(&mut s, rng.below(11) as i32, 8, wb, 9, 0) } != 0 {
         return;
     }
     let mut comp = Vec::new();
@@ -285,6 +288,10 @@ fn stream_adler(rep: &mut Report, rng: &mut Rng) {
         }
     }
     unsafe { mz_deflateEnd(&mut s) };
+    if wb < 0 {
+        // raw stream: the decoder computes no checksum (the property speaks of zlib decoders)
+        return;
+    }
     // inflate side
     let mut s = mz_stream::default();
     if unsafe { mz_inflateInit2(&mut s, 15) } != 0 {
